@@ -269,6 +269,8 @@ type callRT struct {
 	phase     string
 	ctxDone   bool // the harness ended this call's own context
 	wroteOK   bool // the transport accepted this call's frame
+	sendFail  bool // its arguments could not be encoded, or the transport refused its frame
+	ctxAtSeq  bool // its context ended while it stood registered under its sequence number
 	earlyResp bool // a raw call: a response for its sequence number arrived while its write was still pending
 }
 
@@ -698,6 +700,7 @@ func (r *rig) exec1(id string, e csmEvent) (bool, error) {
 			return false, nil
 		}
 		rt.arg.gate <- errEncFail
+		rt.sendFail = true
 		r.modelEvs = append(r.modelEvs, e.enc())
 		rt.phase = "done"
 		return true, waitOn(rt.exited, "send to return after the encode failure")
@@ -723,6 +726,7 @@ func (r *rig) exec1(id string, e csmEvent) (bool, error) {
 			rt.wroteOK = true
 			rt.wr.reply <- nil
 		} else {
+			rt.sendFail = true
 			rt.wr.reply <- errWriteFail
 		}
 		rt.wr = nil
@@ -756,6 +760,7 @@ func (r *rig) exec1(id string, e csmEvent) (bool, error) {
 		if rt.spec.kind == 'R' && (rt.phase != "written" || rt.spec.oneway) {
 			return false, nil
 		}
+		rt.ctxAtSeq = rt.phase != "new"
 		rt.cancel()
 		rt.ctxDone = true
 		r.modelEvs = append(r.modelEvs, e.enc())
@@ -926,6 +931,12 @@ func (r *rig) observe() string {
 					v = "ok:" + strconv.Itoa(r.replyOf(c))
 				}
 			}
+			if c.hasRet && v == "ctx" && c.ctxAtSeq && r.replyOf(c) != 0 {
+				// Call gave its caller the context's error while the call stood registered under its sequence number:
+				// that number is completed - a response that carries it afterwards must not write into the caller's reply
+				// (a call whose context ended before it was given a number is registered afterwards all the same: not this)
+				r.fail("completed-call-altered", fmt.Sprintf("call %d returned its context's error; afterwards its reply value was written (%d) by a response carrying its completed sequence number", i, r.replyOf(c)))
+			}
 			parts = append(parts, "C:ret="+v)
 		case 'R':
 			v := "-"
@@ -1022,6 +1033,25 @@ func csmRunOne(o *common.Out, id string, calls []csmCall, evs []csmEvent, finish
 	for i, f := range strings.Fields(strings.SplitN(obs, " | ", 2)[0]) {
 		if i < len(r.calls) && strings.HasSuffix(f, "ctx") && !r.calls[i].ctxDone {
 			r.fail("foreign-ctx-error", fmt.Sprintf("call %d completed with a context error although its own context never ended", i))
+		}
+		if i < len(r.calls) && r.calls[i].seq >= 0 {
+			// a call's outcome is its own: a decode / codec error only for a response to its own sequence number that
+			// cannot be decoded / names an unknown codec; success only if its frame went out or its answer came in
+			var ownUndecodable, ownUnknownCodec, ownAnswer bool
+			for _, e := range r.fed[uint64(r.calls[i].seq)] {
+				ownUndecodable = ownUndecodable || !e.dec || (r.calls[i].spec.oneway && e.payload > 0) // nothing decodes into a nil reply
+				ownUnknownCodec = ownUnknownCodec || !e.code
+				ownAnswer = true
+			}
+			if strings.HasSuffix(f, "decode") && !ownUndecodable {
+				r.fail("foreign-decode-error", fmt.Sprintf("call %d completed with a decode error although every response to its own sequence number could be decoded (another call's error)", i))
+			}
+			if strings.HasSuffix(f, "codec") && !ownUnknownCodec {
+				r.fail("foreign-decode-error", fmt.Sprintf("call %d completed with an unknown-codec error although no response to its own sequence number named one (another call's error)", i))
+			}
+			if strings.Contains(f, "ok:") && r.calls[i].sendFail && !ownAnswer {
+				r.fail("success-without-send", fmt.Sprintf("call %d completed successfully although its request was never sent (encoding or the transport write failed) and nothing answered it", i))
+			}
 		}
 		if i < len(r.calls) && strings.HasSuffix(f, "write") && r.calls[i].wroteOK {
 			r.fail("foreign-write-failure", fmt.Sprintf("call %d failed with a write error although the transport accepted its frame (state left on the shared connection by another call)", i))
@@ -1270,6 +1300,28 @@ func runCSM(prop string, r *common.Rand, tier string, o *common.Out, replay stri
 		evs   []csmEvent
 	}
 	var jobs []job
+	if prop == "C05" {
+		// a call without reply (one-way) whose send fails - arguments that cannot be encoded, a write the transport
+		// refuses - completes once, with that error; alone and next to an ordinary call
+		for _, kind := range []byte{'G', 'C'} {
+			for _, failure := range []string{"encfail", "wfail"} {
+				for _, other := range []bool{false, true} {
+					calls := []csmCall{{kind: kind, oneway: true}}
+					evs := []csmEvent{{op: "reg", c: 0}}
+					if failure == "encfail" {
+						evs = append(evs, csmEvent{op: "encfail", c: 0})
+					} else {
+						evs = append(evs, csmEvent{op: "encok", c: 0}, csmEvent{op: "wfail", c: 0})
+					}
+					if other {
+						calls = append(calls, csmCall{kind: 'G'})
+						evs = append(evs, csmEvent{op: "reg", c: 1}, csmEvent{op: "encok", c: 1}, csmEvent{op: "wok", c: 1}, genRecv(r, 70, 1, 0))
+					}
+					jobs = append(jobs, job{calls, evs})
+				}
+			}
+		}
+	}
 	if prop == "C03" {
 		maxK := 4
 		if tier == "thorough" {
@@ -1336,7 +1388,12 @@ func runCSM(prop string, r *common.Rand, tier string, o *common.Out, replay stri
 		aggr := []string{"ctx-before-reg", "ctx-after-reg", "ctx-after-write", "encfail", "mistyped", "oneway", "svcerr", "svcerr-mistyped", "unknown-codec", "wfail", "expired-deadline"}
 		for _, victimFirst := range []bool{true, false} {
 			for _, a := range aggr {
-				for order := 0; order < 3; order++ {
+				for order := 0; order < 6; order++ {
+					emptyVictim := order >= 3
+					if emptyVictim && a != "mistyped" && a != "svcerr" && a != "svcerr-mistyped" && a != "unknown-codec" {
+						continue
+					}
+					order := order % 3
 					calls := []csmCall{{kind: 'G'}, {kind: 'C'}}
 					v, ag := 0, 1
 					if !victimFirst {
@@ -1388,6 +1445,9 @@ func runCSM(prop string, r *common.Rand, tier string, o *common.Out, replay stri
 						afr = []csmEvent{genRecv(r, 50, 0, 3)}
 					}
 					vresp := genRecv(r, 60, 0, 0)
+					if emptyVictim {
+						vresp = genRecv(r, 60, 0, 4) // a successful response without payload: the victim's reply is reset, its error nil
+					}
 					switch order {
 					case 0: // victim registers first
 						evs = append(append(evs, vreg...), areg...)
